@@ -15,6 +15,7 @@ def showOut : StlOut → String
 def parseVOp (s : String) : Option VOp :=
   match s.splitOn ":" with
   | ["idx", i] => (parseInt? i).map .index
+  | ["cidx", i] => (parseInt? i).map .index          -- the same access through a const view of the container (`const C &`, int overload)
   | ["front"] => some .front | ["back"] => some .back
   | ["push", v] => (parseInt? v).map .pushBack
   | ["pop"] => some .popBack
